@@ -14,6 +14,26 @@ FORK_TIMEOUT_MS = 2000
 PROVE_TIMEOUT_MS = 60000
 
 
+import threading
+
+
+def timed_check(solver, timeout_ms):
+    """solver.check() with z3's own timeout plus a watchdog that interrupts the context when
+    z3 overruns it (z3 does not always honour 'timeout' inside nlsat / preprocessing; an
+    interrupted check returns unknown, which every caller treats as inconclusive)."""
+    solver.set('timeout', int(timeout_ms))
+    wd = threading.Timer(timeout_ms / 1000.0 * 1.5 + 2.0, solver.ctx.interrupt)
+    wd.daemon = True
+    wd.start()
+    try:
+        try:
+            return solver.check()
+        except z3.Z3Exception:
+            return z3.unknown
+    finally:
+        wd.cancel()
+
+
 class PathInfeasible(BaseException):
     """An assumption made the path condition unsatisfiable: end the path silently."""
 
@@ -79,13 +99,12 @@ class Ctx:
 
     # --- solver access
     def _check(self, extra, timeout):
-        self.solver.set('timeout', int(timeout))
         t = time.time()
         self.solver.push()
         try:
             for e in extra:
                 self.solver.add(e)
-            r = self.solver.check()
+            r = timed_check(self.solver, timeout)
             m = self.solver.model() if r == z3.sat else None
         finally:
             self.solver.pop()
@@ -135,10 +154,9 @@ class Ctx:
         if r == 'unknown':
             t = time.time()
             s = z3.Solver()
-            s.set('timeout', int(timeout))
             s.add(self.cons)
             s.add(c)
-            rr = s.check()
+            rr = timed_check(s, timeout)
             self.stats.queries += 1
             self.stats.solver_s += time.time() - t
             r = str(rr)
@@ -151,13 +169,51 @@ class Ctx:
             out[k] = _pyval(m.eval(v, model_completion=True))
         return out
 
-    def prove(self, claim, what, key=None, info=None):
+    def solve_generalized(self, c, subst, timeout=PROVE_TIMEOUT_MS, incremental=False):
+        """Decide c under the path condition after replacing the terms t by fresh variables v
+        (subst = [(t, v), ...]) in the path condition and in c.  The original problem is an
+        instance of the generalised one, so 'unsat' carries over; 'sat' does not (the caller
+        falls back to the exact query)."""
+        t0 = time.time()
+        s = z3.Solver()
+        s.set('timeout', int(timeout))
+        if incremental:
+            s.push()    # incremental mode: SMT core + nla lemmas instead of the tactic pipeline (nlsat)
+        if subst == 'drop-defs':
+            dropped = {d.get_id() for d in self.extra.get('defs', [])}
+            for a in self.cons:
+                if a.get_id() not in dropped:
+                    s.add(a)
+            s.add(_b(c))
+        else:
+            for a in self.cons:
+                s.add(z3.substitute(a, *subst))
+            s.add(z3.substitute(_b(c), *subst))
+        r = timed_check(s, timeout)
+        self.stats.queries += 1
+        self.stats.solver_s += time.time() - t0
+        return str(r)
+
+    def prove(self, claim, what, key=None, info=None, generalize=None):
         """Assert ``claim`` on this path.  unsat(not claim) -> True.  A counterexample or an
         unknown is recorded as an event; the harness decides what to do with it."""
         claim = _b(claim)
         info = dict(info or {})
         if self.extra.get('case') is not None:
             info.setdefault('case', self.extra['case'])
+        if generalize:
+            # portfolio with escalating budgets: z3's two arithmetic engines (tactic pipeline with
+            # nlsat / incremental SMT core with nla lemmas) each refute some of these polynomial
+            # identities in ms and time out on others
+            nc = z3.Not(claim)
+            for gen, inc, to in ((True, False, 2000), (False, True, 3000), (True, True, 5000), (True, False, 20000)):
+                if gen:
+                    r = self.solve_generalized(nc, generalize, to, incremental=inc)
+                else:
+                    r, _ = self._check([nc], to)
+                if r == 'unsat':
+                    self.stats.proved += 1
+                    return True
         r, m = self.solve(z3.Not(claim))
         if r == 'unsat':
             self.stats.proved += 1
@@ -223,10 +279,9 @@ class Ctx:
         vals = []
         self.solver.push()
         try:
-            self.solver.set('timeout', 10000)
             while True:
                 t = time.time()
-                r = self.solver.check()
+                r = timed_check(self.solver, 10000)
                 self.stats.queries += 1
                 self.stats.solver_s += time.time() - t
                 if r == z3.unsat:
@@ -244,6 +299,18 @@ class Ctx:
 
     def concretize(self, e, cap=64, what='index'):
         """Fork over the feasible values of integer term e; returns a python int."""
+        e = z3.simplify(e)
+        if z3.is_int_value(e):
+            return e.as_long()
+        known = self.extra.setdefault('known', {})
+        hit = known.get(e.get_id())
+        if hit is not None:
+            return hit[1]
+        v = self._concretize(e, cap, what)
+        known[e.get_id()] = (e, v)
+        return v
+
+    def _concretize(self, e, cap, what):
         vals = self.values(e, cap, what)
         if not vals:
             raise PathInfeasible()
@@ -682,12 +749,58 @@ def rdiv(x, y):
     return x * (z3.RealVal(1) / ys)
 
 
+_RECIP = {}
+
+
+def _has_recip(e):
+    """does the term contain a division by a non-constant?"""
+    i = e.get_id()
+    r = _RECIP.get(i)
+    if r is None:
+        r = False
+        if z3.is_app(e):
+            if e.decl().kind() == z3.Z3_OP_DIV and not z3.is_rational_value(e.arg(1)) and not z3.is_int_value(e.arg(1)):
+                r = True
+            else:
+                r = any(_has_recip(a) for a in e.children())
+        _RECIP[i] = r
+    return r
+
+
+def _named_product(x, y):
+    """Opt-in (ctx.extra['name_products']): a product in which one factor contains a reciprocal
+    of a variable (e.g. (x+offset)*(n/box)) is given a name: a fresh variable v with the
+    defining constraint v == x*y, recorded in ctx.extra['defs'].  Everything computed from it
+    is then polynomial in v, and a deciding query may first be tried with the definitions
+    dropped (a generalisation: unsat carries over to the full query)."""
+    c = CTX
+    memo = c.extra.setdefault('prodmemo', {})
+    key = (x.get_id(), y.get_id())
+    if key not in memo:
+        v = c.fresh(z3.RealSort(), 'prod')
+        d = v == x * y
+        c.extra.setdefault('defs', []).append(d)
+        c.add(d)
+        memo[key] = (x, y, v)
+    return memo[key][2]
+
+
 def _real_op(x, y, op):
     S = lambda e: Sym(z3.simplify(e))
     if op == 'add': return S(x + y)
     if op == 'sub': return S(x - y)
-    if op == 'mul': return S(x * y)
-    if op == 'div': return S(rdiv(x, y))
+    if op == 'mul':
+        if CTX is not None and CTX.extra.get('name_products'):
+            xs, ys = z3.simplify(x), z3.simplify(y)
+            if not z3.is_rational_value(xs) and not z3.is_rational_value(ys) and (_has_recip(xs) or _has_recip(ys)):
+                return Sym(_named_product(xs, ys))
+        return S(x * y)
+    if op == 'div':
+        if CTX is not None and CTX.extra.get('name_products'):
+            xs, ys = z3.simplify(x), z3.simplify(y)
+            if not z3.is_rational_value(xs) and not z3.is_rational_value(ys):
+                return Sym(_named_product(xs, z3.RealVal(1) / ys))
+        return S(rdiv(x, y))
     if op == 'eq': return S(x == y)
     if op == 'ne': return S(x != y)
     if op == 'lt': return S(x < y)
@@ -856,7 +969,10 @@ def srange(*a):
 
 def sround(x, nd=None):
     if isinstance(x, Sym):
-        return x.__round__(nd)
+        r = x.__round__(nd)
+        if CTX is not None:
+            CTX.extra.setdefault('rounds', []).append((x, r))   # harnesses may read which cell was chosen
+        return r
     if nd is None and isinstance(x, (float, real_np.floating)):
         return builtins.round(float(x))
     return builtins.round(x, nd) if nd is not None else builtins.round(x)
